@@ -32,6 +32,11 @@ type file struct {
 	*fileData
 	offset int64
 	flag   int
+	closed bool
+}
+
+func (f *file) closedErr(op string) error {
+	return &hackpadfs.PathError{Op: op, Path: f.path, Err: hackpadfs.ErrClosed}
 }
 
 type fileData struct {
@@ -172,10 +177,10 @@ func (f *fileData) info() hackpadfs.FileInfo {
 }
 
 func (f *file) Close() error {
-	if f.fileData == nil {
-		return hackpadfs.ErrClosed
+	if f.closed {
+		return f.closedErr("close")
 	}
-	f.fileData = nil
+	f.closed = true
 	return nil
 }
 
@@ -204,6 +209,9 @@ func (f *file) ReadAt(p []byte, off int64) (n int, err error) {
 }
 
 func (f *file) ReadBlobAt(length int, off int64) (b blob.Blob, n int, err error) {
+	if f.closed {
+		return nil, 0, f.closedErr("read")
+	}
 	if off < 0 {
 		return nil, 0, &hackpadfs.PathError{Op: "readat", Path: f.path, Err: errors.New("negative offset")}
 	}
@@ -231,6 +239,9 @@ func (f *file) ReadBlobAt(length int, off int64) (b blob.Blob, n int, err error)
 }
 
 func (f *file) Seek(offset int64, whence int) (int64, error) {
+	if f.closed {
+		return 0, f.closedErr("seek")
+	}
 	newOffset := f.offset
 	switch whence {
 	case io.SeekStart:
@@ -262,6 +273,9 @@ func (f *file) Write(p []byte) (n int, err error) {
 }
 
 func (f *file) WriteBlob(p blob.Blob) (n int, err error) {
+	if f.closed {
+		return 0, f.closedErr("write")
+	}
 	off := f.offset
 	if f.flag&hackpadfs.FlagAppend != 0 {
 		off = int64(f.Size())
@@ -276,6 +290,9 @@ func (f *file) WriteAt(p []byte, off int64) (n int, err error) {
 }
 
 func (f *file) WriteBlobAt(p blob.Blob, off int64) (n int, err error) {
+	if f.closed {
+		return 0, f.closedErr("write")
+	}
 	if f.flag&hackpadfs.FlagAppend != 0 {
 		return 0, &hackpadfs.PathError{Op: "writeat", Path: f.path, Err: errors.New("invalid use of WriteAt on file opened with O_APPEND")}
 	}
@@ -315,10 +332,16 @@ func (f *file) writeBlobAt(op string, p blob.Blob, off int64) (n int, err error)
 }
 
 func (f *file) Stat() (hackpadfs.FileInfo, error) {
+	if f.closed {
+		return nil, f.closedErr("stat")
+	}
 	return fileInfo{Record: &f.runOnceFileRecord, Path: f.path}, nil
 }
 
 func (f *file) Truncate(size int64) error {
+	if f.closed {
+		return f.closedErr("truncate")
+	}
 	if f.Mode().IsDir() {
 		return &hackpadfs.PathError{Op: "truncate", Path: f.path, Err: hackpadfs.ErrIsDir}
 	}
@@ -352,6 +375,9 @@ func (f *file) Truncate(size int64) error {
 }
 
 func (f *file) ReadDir(n int) ([]hackpadfs.DirEntry, error) {
+	if f.closed {
+		return nil, f.closedErr("readdir")
+	}
 	dirNames, err := f.ReadDirNames()
 	if err != nil {
 		return nil, &hackpadfs.PathError{Op: "readdir", Path: f.path, Err: err}
@@ -414,6 +440,9 @@ func (d *dirEntry) Info() (hackpadfs.FileInfo, error) {
 }
 
 func (f *file) Chmod(mode hackpadfs.FileMode) error {
+	if f.closed {
+		return f.closedErr("chmod")
+	}
 	newMode := (f.Mode() & ^chmodBits) | (mode & chmodBits)
 	f.modeOverride = &newMode
 	return f.save()
